@@ -202,7 +202,7 @@ def c09_3(R):
                where="src/constants.rs", instance="tolerance>=window-in-packets")
 
 
-@rule("C09.4", ["C09", "C17", "C06"], ["E1", "E4"], "the modular type's own arithmetic wraps",
+@rule("C09.4", ["C09", "C17", "C06", "C01", "C04"], ["E1", "E4"], "the modular type's own arithmetic wraps",
       "Inside seq_nr.rs every arithmetic on the raw u16 of a SeqNr is wrapping: Add<u16> / AddAssign<u16> reach u16::wrapping_add(self.0, rhs), Sub<u16> / SubAssign<u16> reach "
       "u16::wrapping_sub(self.0, rhs) (directly or through the sibling operator), and no saturating_*, checked_*, overflowing_* or built-in +/- touches the raw value: a saturating "
       "`-= 1` at sequence number 0 (the FIN retransmission rewind) pins the cursor and the FIN is never retransmitted; a plain `+` panics or wraps depending on the build profile.")
